@@ -9,6 +9,10 @@ CONSTANTS
   RxDeltas = {0, 3}
   Delays = {0, 2}
   CtrlDelays = {}
+  Sec = 1
+  TsGrid = 1
+  TickUs = 1000000
+  BaseTicks = 1640995200
   IndexMode = "mod2"
   Record = TRUE
 INVARIANTS EmitScn
